@@ -228,6 +228,38 @@ def validUtf8 (l : List Nat) : Bool := validUtf8G true l
     `reverse_iter_lines` requires of every line it yields in text mode -/
 def strictUtf8 (l : List Nat) : Bool := validUtf8G false l
 
+/-- `bytes.decode('utf-8')` (`sp = false`) / with 'surrogatepass' (`sp = true`): the code points, or
+    `none` where the codec raises UnicodeDecodeError -/
+def decodeG (sp : Bool) : List Nat → Option (List Nat)
+  | [] => some []
+  | b :: rest =>
+    if b < 128 then (decodeG sp rest).map (b :: ·)
+    else if 194 ≤ b && b ≤ 223 then
+      match rest with
+      | c1 :: r =>
+        if isCont c1 then (decodeG sp r).map (((b - 192) * 64 + (c1 - 128)) :: ·) else none
+      | _ => none
+    else if 224 ≤ b && b ≤ 239 then
+      match rest with
+      | c1 :: c2 :: r =>
+        if isCont c1 && isCont c2 && (b != 224 || 160 ≤ c1) && (b != 237 || sp || c1 ≤ 159) then
+          (decodeG sp r).map (((b - 224) * 4096 + (c1 - 128) * 64 + (c2 - 128)) :: ·)
+        else none
+      | _ => none
+    else if 240 ≤ b && b ≤ 244 then
+      match rest with
+      | c1 :: c2 :: c3 :: r =>
+        if isCont c1 && isCont c2 && isCont c3 && (b != 240 || 144 ≤ c1) && (b != 244 || c1 ≤ 143) then
+          (decodeG sp r).map (((b - 240) * 262144 + (c1 - 128) * 4096 + (c2 - 128) * 64 + (c3 - 128)) :: ·)
+        else none
+      | _ => none
+    else none
+
+/-- `list(reverse_iter_lines(text_file, blocksize))`: every line decoded with the strict codec;
+    `none` marks a line on which `line.decode('utf-8')` raises -/
+def reverseIterLinesText (c : List Nat) (bs : Nat) : List (Option (List Nat)) :=
+  (reverseIterLines c bs).map (decodeG false)
+
 /-! ### JSONLIterator -/
 
 /-- what `.lstrip()` strips from a line (the table is regenerated from the code's behaviour) -/
